@@ -6,7 +6,7 @@
    modelled code.  Stack exhaustion, allocator aborts and panics inside dependencies are
    runtime behaviour observed by running the real crate (lib/props/c05.py), not proven. *)
 From Cddl Require Import Base.Bytes Cbor.Wire Cbor.DecodeProofs Generated.RobustConsts
-  Robust.Chase Robust.Alloc Robust.Arith Robust.RobustProofs.
+  Robust.Chase Robust.Alloc Robust.Arith Robust.Occur Robust.RobustProofs.
 Open Scope N_scope.
 
 (* ---------- cyclic rule references terminate: the guarded is_ident_* recursion (d9284e7) ---------- *)
@@ -21,6 +21,20 @@ Proof. exact chase_seq_terminates. Qed.
 Theorem C05_calls_exponential_refuted :
   exists e n, acyclic_alias e = true /\ length e = 41%nat /\ 2 ^ 40 <= calls e n.
 Proof. exact calls_exponential_refuted. Qed.
+
+(* ---------- occurrence bounds written in the schema do not drive the number of steps ---------- *)
+(* seq_match_entry (json.rs / cbor.rs) with its zero-width stop as found in the source: at most one step per
+   remaining element plus one, for every lower and upper bound and every entry that only consumes elements *)
+Theorem C05_occurrence_loop_terminates : forall (A : Type) (once : list A -> option (list A)), consumes once ->
+  forall f min max count cur, (length cur < f)%nat ->
+  occ_loop (json_zero_width_stop && cbor_zero_width_stop) once f min max count cur <> OFuel.
+Proof. exact @occ_loop_code_terminates. Qed.
+
+(* why the stop must not depend on the bound: restricted to unbounded occurrences, every fuel is exhausted by some bound *)
+Theorem C05_occurrence_loop_unstopped_refuted :
+  exists once : list N -> option (list N), consumes once /\
+    forall f, exists m, occ_loop false once f 0 (Some m) 0 [] = OFuel.
+Proof. exact occ_loop_unstopped_refuted. Qed.
 
 (* ---------- a length announced in a CBOR head is never trusted for allocation ---------- *)
 Theorem C05_alloc_bounded : forall n inp r,
@@ -87,6 +101,13 @@ Proof. vm_compute. split; reflexivity. Qed.
 Example C05_cycle_example :
   acyclic_alias cyc2 = false /\ chase_seq size_hits (chase_fuel cyc2) cyc2 1 = No
   /\ chase [100] 3 [(0, [Alias 100; Alias 0])] 0 = Yes /\ chase [100] 3 [(0, [Alias 0; Alias 100])] 0 = Yes.
+Proof. vm_compute. repeat split. Qed.
+
+(* [0*18446744073709551615 (), int] against [1]: the empty group stops after one zero-width step *)
+Example C05_occurrence_example :
+  occ_loop true (fun l : list N => Some l) 3 0 (Some 18446744073709551615) 0 [1] = Matched [1]
+  /\ occ_loop true (fun l : list N => match l with [] => None | _ :: r => Some r end) 4 2 (Some 5) 0 [7; 8; 9] = Matched []
+  /\ occ_loop true (fun l : list N => Some l) 3 9999999999999 None 0 [] = Matched [].
 Proof. vm_compute. repeat split. Qed.
 
 (* a hostile head: 2^36 bytes announced, 3 present: one capped request, one failed chunk *)
